@@ -23,7 +23,9 @@ func init() {
 		Explanation: "Decides that sparse directories are matched by whole path components in both places that interpret them: (dir-prefix-component) every strings.HasPrefix whose prefix argument derives from the sparse directory " +
 			"list (Index.SkipUnless patterns, ResetOptions.SparseDirs in checkKeepResetConflicts) has the form HasPrefix(name, dir + \"/\") and is paired with an equality alternative name == dir; " +
 			"(sibling-agreement) both matchers have that form; (sparse-flow) Reset passes opts.SparseDirs to resetIndex, resetIndex passes them to Index.SkipUnless before SetIndex. " +
-			"Not decided: which files end up on disk.",
+			"(skipped-entries-removed) in resetWorktreeToTree the loop over the index entries that removes files — the only place skip-worktree files leave the disk — passes an entry over only because it is not marked skip-worktree, " +
+			"because the reset names other files, or because the file is already absent (inventory of the loop's continue statements by their conditions), and the removal is not nested under a further condition. " +
+			"Not decided: that the files inside the selection are written with the right content.",
 		Assumptions: []string{},
 		Run:         runC32,
 	})
@@ -473,4 +475,6 @@ func runC32(c *Ctx) {
 		}
 		c.Check(ok, r3, rs.Name()+"->resetIndex", rs.Decl.Pos(), "ResetOptions.SparseDirs reaches resetIndex")
 	}
+	checkSkippedEntriesRemoved(c, "skipped-entries-removed")
+	c.Floor("skipped-entries-removed", 3)
 }
